@@ -87,6 +87,8 @@ impl<'a, R: Read> Lexer<Scanner<'a, R>> {
         #[cfg(feature = "verif-hooks")]
         crate::haystack::verif_hooks::tick(crate::haystack::verif_hooks::SITE_FILTER_LEXER_READ);
         while !self.scanner.is_eof {
+            #[cfg(feature = "verif-hooks")]
+            crate::haystack::verif_hooks::tick(crate::haystack::verif_hooks::SITE_LOOP);
             match self.scanner.cur {
                 // White spaces
                 b'\n' | b'\r' | b'\t' | b' ' => {
@@ -245,6 +247,8 @@ impl<'a, R: Read> Lexer<Scanner<'a, R>> {
     fn parse_path(&mut self, id: Id) -> Result<LexerToken, Error> {
         let mut path = Vec::from([id]);
         while !self.scanner.is_eof {
+            #[cfg(feature = "verif-hooks")]
+            crate::haystack::verif_hooks::tick(crate::haystack::verif_hooks::SITE_LOOP);
             let id = parse_id(&mut self.scanner)?;
             path.push(id);
             self.scanner.consume_white_spaces()?;
